@@ -70,6 +70,14 @@ class Check:
         self.assumptions = []
         self.checker_cmds = []
         self.replaying = False
+        # replays of earlier runs of this property are stale
+        rdir = os.path.join(VERIF, "replays", pid)
+        if os.path.isdir(rdir) and not os.environ.get("VERIF_KEEP_REPLAYS"):
+            for f in os.listdir(rdir):
+                try:
+                    os.remove(os.path.join(rdir, f))
+                except OSError:
+                    pass
 
     # ---------------------------------------------------------------- util
     def log(self, *a):
